@@ -79,6 +79,22 @@ func init() {
 			}
 			return last
 		}
+		// connections the server side really holds: ESTABLISHED sockets whose local port is the listen port
+		estab := func() int {
+			n := 0
+			data, err := os.ReadFile("/proc/self/net/tcp")
+			if err != nil {
+				return -1
+			}
+			want := fmt.Sprintf(":%04X", port)
+			for _, l := range strings.Split(string(data), "\n")[1:] {
+				f := strings.Fields(l)
+				if len(f) > 3 && strings.HasSuffix(f[1], want) && f[3] == "01" {
+					n++
+				}
+			}
+			return n
+		}
 		settle() // the probe connection above must be gone
 		conns := map[int]*c14conn{}
 		clientCfg := func(good bool) *gossh.ClientConfig {
@@ -146,9 +162,17 @@ func init() {
 						c.tcp = nil
 					}
 				}
+			case 'W':
+				time.Sleep(time.Duration(i) * time.Millisecond)
 			}
 			n := settle()
-			obs = append(obs, fmt.Sprintf("%d/%v", n, ok))
+			// the sockets may trail the counter by a moment; a lasting difference is reported
+			e := estab()
+			for k := 0; k < 60 && e != n; k++ {
+				time.Sleep(5 * time.Millisecond)
+				n, e = settle(), estab()
+			}
+			obs = append(obs, fmt.Sprintf("%d/%v/%d", n, ok, e))
 		}
 		for _, c := range conns {
 			if c.client != nil {
